@@ -869,6 +869,19 @@ class StmtMixin:
             if isinstance(v, (Sc, RefV, PyConst, NoneV, TupleV)):
                 t = v.t
                 if isinstance(v, NoneV):
+                    # `x: Optional[C] = None` before the loop, assigned inside it: havoc as a nullable C.
+                    # Sound only with a declared type; anything else is out of reach.
+                    t = None
+                    for an in ast.walk(frame.finfo.node):
+                        if isinstance(an, ast.AnnAssign) and isinstance(an.target, ast.Name) and an.target.id == name:
+                            t = self.type_from_annotation(an.annotation, frame)
+                    if t is None:
+                        # assigned only together with leaving the loop (break/return/raise right after): stays None inside
+                        if self._assigned_only_before_exit(node, name):
+                            continue
+                        raise VCError('local %s is None at the head of the loop at line %d and assigned inside it: '
+                                      'needs a type annotation' % (name, node.lineno))
+                    st.locals[name] = self.fresh_val(name, t, st, nullable=True)
                     continue
                 st.locals[name] = self.fresh_val(name, t, st, nullable=True if isinstance(v, RefV) else False)
         for name in sorted(mutated):
@@ -891,6 +904,36 @@ class StmtMixin:
         pre.spec = True
         for m in mods:
             self.havoc_loc(m, pre, st, frame)
+
+    @staticmethod
+    def _assigned_only_before_exit(loop, name):
+        """every store to `name` inside `loop` is a plain assignment statement followed, in the same block and with only
+        simple statements in between, by break/return/raise: the variable keeps its pre-loop value in every iteration
+        that reaches the loop head again."""
+        stores = [n for n in ast.walk(loop) if isinstance(n, ast.Name) and n.id == name and isinstance(n.ctx, (ast.Store, ast.Del))]
+        ok_stores = set()
+        nested = set()
+        for inner in ast.walk(loop):
+            if inner is not loop and isinstance(inner, (ast.For, ast.While, ast.AsyncFor)):
+                nested.update(id(x) for x in ast.walk(inner))
+        for blk_owner in ast.walk(loop):
+            for fld in ('body', 'orelse', 'finalbody'):
+                blk = getattr(blk_owner, fld, None)
+                if not isinstance(blk, list):
+                    continue
+                for i, s in enumerate(blk):
+                    if isinstance(s, (ast.Assign, ast.AnnAssign)):
+                        tg = s.targets if isinstance(s, ast.Assign) else [s.target]
+                        names = [t for t in tg if isinstance(t, ast.Name) and t.id == name]
+                        if not names:
+                            continue
+                        for s2 in blk[i + 1:]:
+                            if isinstance(s2, (ast.Return, ast.Raise)) or (isinstance(s2, ast.Break) and id(s2) not in nested):
+                                ok_stores.update(id(t) for t in names)
+                                break
+                            if not isinstance(s2, (ast.Assign, ast.AnnAssign, ast.AugAssign, ast.Expr, ast.Pass)):
+                                break
+        return all(id(n) in ok_stores for n in stores)
 
     def callee_modified_args(self, call, frame):
         f = call.func
